@@ -35,7 +35,7 @@ PROP_INVS = {
             "DnsFunction", "DnsInjective", "DnsReverse", "DnsLiteral", "DnsRegex"],
     "C02": ["Prefix", "PeekFaithful", "ReadOverrun", "DataAfterEof", "EarlyEof", "Stall", "SpuriousReset",
             "ErrorKind", "NoPanic", "PrefixInv", "EofInv"],
-    "C12": ["OkWithoutAccept", "RefusedThoughAccepted", "Hang", "AcceptHang", "PhantomAccept", "AcceptedDead",
+    "C12": ["OkWithoutAccept", "RefusedThoughAccepted", "Hang", "SpuriousRefusal", "AcceptHang", "PhantomAccept", "AcceptedDead",
             "AcceptOrder", "Mirror", "Reclaimed", "ErrorKind", "NoPanic", "Prefix"],
 }
 
@@ -61,7 +61,7 @@ def fs(*xs):
 # configurations
 
 def ports_consts(**kw):
-    c = dict(Lo=49152, Hi=49154, MaxSock=4, Fixed={49153, 9}, Ops=set(PORT_OPS), MaxOps=5, MaxIn=2,
+    c = dict(Lo=49152, Hi=49154, MaxSock=4, Fixed={49153, 9}, Ops=set(PORT_OPS), BindKindsP={"any"}, MaxOps=5, MaxIn=2,
              LeakOnFail=False, NameU=set(), Patterns=set())
     c.update(kw)
     return c
@@ -77,7 +77,8 @@ def dns_consts(**kw):
 def tcp_consts(**kw):
     """MsgTcp constants.  FinRoom = 1 / RstOnFin = FALSE describe the repaired code (D1, D14)."""
     c = dict(MaxConn=1, NH=2, PortIds={1}, Cap=1, FinRoom=1, RstOnFin=False, Pre=True, Alpha=set(DATA_OPS),
-             DestKinds={"srv"}, BindKinds={"any"}, WriteLens={1}, ReadSizes={1}, PeekSizes=set(), MaxWrites=2, MaxAct=8)
+             DestKinds={"srv"}, BindKinds={"any"}, WriteLens={1}, ReadSizes={1}, PeekSizes=set(), NPorts=0, MaxWrites=2,
+             MaxAct=8)
     c.update(kw)
     return c
 
@@ -98,7 +99,7 @@ def mc_configs(pid, tier):
                                         MaxAct=8 if q else 11)),
             # capacity 2: the FIN arrives behind a full queue (D1), writer outruns the reader
             ("mc_data_cap2", tcp_consts(Cap=2, Alpha={"write", "shutdown", "read", "deliver", "quiet", "drop_stream"},
-                                        WriteLens={1}, ReadSizes={1, 2}, MaxWrites=3, MaxAct=10 if q else 13)),
+                                        WriteLens={0, 1}, ReadSizes={1, 2}, MaxWrites=3, MaxAct=10 if q else 13)),
         ]
         if not q:
             cfgs.append(("mc_data_cap3", tcp_consts(Cap=3, Alpha={"write", "shutdown", "read", "deliver", "quiet"},
@@ -117,6 +118,9 @@ def mc_configs(pid, tier):
         cfgs.append(("mc_conn_burst", conn_consts(MaxConn=3 if q else 4, NH=2, Cap=3 if q else 4,
                                                   Alpha={"bind", "connect", "deliver", "accept", "cancel"},
                                                   DestKinds={"srv"}, BindKinds={"any"}, MaxAct=10 if q else 12)))
+        cfgs.append(("mc_conn_reuse", conn_consts(MaxConn=3, NH=2, Cap=3, NPorts=1 if q else 2,
+                                                  Alpha={"bind", "connect", "deliver", "accept", "poll", "cancel", "drop_listener"},
+                                                  DestKinds={"srv"}, BindKinds={"any"}, MaxAct=11 if q else 12)))
         if not q:
             cfgs.append(("mc_conn3", conn_consts(MaxConn=3, Cap=3, Alpha=set(CONN_OPS) - {"partition"},
                                                  BindKinds={"any"}, MaxAct=10)))
@@ -125,7 +129,8 @@ def mc_configs(pid, tier):
         cfgs = [
             ("mc_ports", ports_consts(MaxOps=6 if q else 8)),
             ("mc_dns", dns_consts(MaxOps=5 if q else 6)),
-            ("mc_ports_shared", ports_consts(Hi=49153, Fixed=set(), Ops={"bind_tcp", "bind_udp", "accept", "drop", "drop_half"},
+            ("mc_ports_shared", ports_consts(Hi=49153, Fixed=set(), BindKindsP={"any", "lo"},
+                                             Ops={"bind_tcp", "bind_udp", "accept", "drop", "drop_half"},
                                              MaxOps=8 if q else 9, MaxIn=2)),
         ]
         if not q:
@@ -142,12 +147,12 @@ def gen_configs(pid, tier):
             ("gen_data_cap1", tcp_consts(Cap=1, WriteLens={1, 2}, ReadSizes={1, 2}, PeekSizes={1}, MaxWrites=2,
                                          MaxAct=5 if q else 7), dict(v6=0), None),
             ("gen_data_cap2", tcp_consts(Cap=2, Alpha={"write", "shutdown", "read", "deliver", "quiet", "drop_stream"},
-                                         WriteLens={1}, ReadSizes={0, 1}, MaxWrites=3, MaxAct=7 if q else 9), dict(v6=1), None),
+                                         WriteLens={0, 1}, ReadSizes={0, 1}, MaxWrites=3, MaxAct=7 if q else 9), dict(v6=1), None),
             # the FIN meets a full queue (D1 family): one direction, capacity 1 and 2, reader starts late
             ("gen_fin_full", tcp_consts(Cap=1, Alpha={"write", "shutdown", "deliver", "read", "quiet"},
                                         WriteLens={1}, ReadSizes={1}, MaxWrites=1, MaxAct=8 if q else 10), dict(v6=0), None),
             # seeded random walks of 22 actions (num = walks per TLC worker)
-            ("sim_data", tcp_consts(Cap=2, WriteLens={1, 2, 3}, ReadSizes={0, 1, 2, 4}, PeekSizes={1, 2}, MaxWrites=4,
+            ("sim_data", tcp_consts(Cap=2, WriteLens={0, 1, 2, 3}, ReadSizes={0, 1, 2, 4}, PeekSizes={1, 2}, MaxWrites=4,
                                     MaxAct=22), dict(v6=0), f"num={150 if q else 3000}"),
         ]
         return cfgs
@@ -160,6 +165,10 @@ def gen_configs(pid, tier):
             # bursts: 3-4 requests pending at one listener at the same time before / between accepts
             ("gen_conn_burst", conn_consts(MaxConn=3, NH=2 if q else 3, Cap=3, Alpha={"bind", "connect", "deliver", "accept", "cancel"},
                                            DestKinds={"srv"}, BindKinds={"any"}, MaxAct=10), dict(v6=0), None),
+            # a 1-port ephemeral range: a connector re-uses the address of an abandoned / refused / closed one;
+            # the RST of an abandoned connect is in flight together with the next connector's request
+            ("gen_conn_reuse", conn_consts(MaxConn=3, NH=2, Cap=3, NPorts=1, Alpha={"bind", "connect", "deliver", "accept", "poll", "cancel"},
+                                           DestKinds={"srv"}, BindKinds={"any"}, MaxAct=9 if q else 11), dict(v6=0, nports=1), None),
             ("sim_conn", conn_consts(MaxConn=3, Cap=3, Alpha=set(CONN_OPS) | {"write", "read", "drop_stream"},
                                      MaxAct=20), dict(v6=0), f"num={150 if q else 3000}"),
         ]
@@ -170,7 +179,8 @@ def gen_configs(pid, tier):
             ("gen_dns", dns_consts(MaxOps=4 if q else 5), dict(v6=1), None),
             # streams accepted on a listener that was bound to port 0 share its (ephemeral) port: the port
             # stays in use until the last of them is gone, also after the listener itself was dropped
-            ("gen_ports_shared", ports_consts(Hi=49153, Fixed=set(), Ops={"bind_tcp", "bind_udp", "accept", "drop", "drop_half"},
+            ("gen_ports_shared", ports_consts(Hi=49153, Fixed=set(), BindKindsP={"any", "lo"},
+                                              Ops={"bind_tcp", "bind_udp", "accept", "drop", "drop_half"},
                                               MaxOps=7 if q else 8, MaxIn=2), dict(v6=0), None),
         ]
         if not q:
@@ -205,12 +215,13 @@ def trace_consts(pid, rc):
     if pid in ("C02", "C12"):
         prop = dict(MaxConn=rc["maxconn"], NH=rc["nh"], PortIds=set(rc["ports"]))
         impl = dict(prop, Cap=rc["cap"], FinRoom=1, RstOnFin=False, Pre=False, Alpha=set(ALL_TCP_OPS) | {"quiet"},
-                    DestKinds={"srv", "none"}, BindKinds={"any", "lo"}, WriteLens=set(range(1, 17)),
-                    ReadSizes=set(range(0, 17)), PeekSizes=set(range(0, 17)), MaxWrites=10 ** 9, MaxAct=10 ** 9)
+                    DestKinds={"srv", "none"}, BindKinds={"any", "lo"}, WriteLens=set(range(0, 17)),
+                    ReadSizes=set(range(0, 17)), PeekSizes=set(range(0, 17)), NPorts=rc.get("nports", 0), MaxWrites=10 ** 9,
+                    MaxAct=10 ** 9)
         return prop, impl
     if pid == "C15":
         prop = dict(Lo=rc["lo"], Hi=rc["hi"], MaxSock=rc["maxsock"])
-        impl = dict(prop, Fixed=set(), Ops=set(PORT_OPS + DNS_OPS), MaxOps=10 ** 9, MaxIn=10 ** 9,
+        impl = dict(prop, Fixed=set(), Ops=set(PORT_OPS + DNS_OPS), BindKindsP={"any", "lo"}, MaxOps=10 ** 9, MaxIn=10 ** 9,
                     LeakOnFail=False, NameU=set(), Patterns=set())
         return prop, impl
     raise ValueError(pid)
@@ -218,7 +229,8 @@ def trace_consts(pid, rc):
 
 def replay_rc(pid, consts):
     if pid in ("C02", "C12"):
-        return dict(maxconn=consts["MaxConn"], nh=consts["NH"], ports=sorted(consts["PortIds"]), cap=consts["Cap"])
+        return dict(maxconn=consts["MaxConn"], nh=consts["NH"], ports=sorted(consts["PortIds"]), cap=consts["Cap"],
+                    nports=consts.get("NPorts", 0))
     if pid == "C15":
         return dict(lo=consts["Lo"], hi=consts["Hi"], maxsock=consts["MaxSock"])
     raise ValueError(pid)
@@ -299,6 +311,8 @@ def outcomes_of(pid, hs):
                 if "res" in op:
                     k = f"{op['a']}:{op['res']}"
                     seen[k] = seen.get(k, 0) + 1
+                    if op["a"] == "write" and not op["data"]:
+                        seen[f"write0:{op['via']}"] = seen.get(f"write0:{op['via']}", 0) + 1
                 elif op["a"] == "deliver":
                     k = f"deliver:{op['kind']}"
                     seen[k] = seen.get(k, 0) + 1
@@ -325,12 +339,13 @@ def outcomes_of(pid, hs):
 NEED_OUTCOMES = {
     "gen_data_cap1": ["read:data", "read:eof", "read:pending", "read:reset", "write:wouldblock", "write:brokenpipe",
                       "peek:data", "deliver:rst", "deliver:fin"],
-    "gen_data_cap2": ["read:data", "read:eof", "read:zero", "write:wouldblock"],
+    "gen_data_cap2": ["read:data", "read:eof", "read:zero", "write:wouldblock", "write0:try", "write0:poll"],
     "gen_fin_full": ["read:data", "read:eof", "read:pending", "deliver:fin"],
     "gen_conn": ["connect:pending", "connect:refused", "poll:ok", "poll:refused", "poll:pending", "accept:ok",
                  "accept:pending", "bind:inuse", "deliver:syn"],
     "gen_conn_data": ["accept:ok", "poll:ok", "read:data"],
     "gen_conn_burst": ["accept:ok", "accept:pending", "deliver:syn"],
+    "gen_conn_reuse": ["accept:ok", "poll:ok", "deliver:rst", "deliver:syn"],
     "gen_ports": ["AddrInUse", "Exhausted", "ConnectFailed"],
     "gen_dns": ["RegexNonEmpty", "ReverseFound"],
     "gen_ports_shared": ["AcceptEphemeral", "Exhausted"],
@@ -342,6 +357,7 @@ NEED_ACTIONS = {
     "mc_data_cap2": ["Write", "Shutdown", "Read", "DropStream", "DeliverSeg", "DeliverRst", "Quiet"],
     "mc_conn": ["Bind", "DropListener", "Connect", "DeliverSyn", "Accept", "Poll", "Cancel", "Partition", "Repair", "Tick"],
     "mc_conn_burst": ["Bind", "Connect", "DeliverSyn", "Accept", "Cancel"],
+    "mc_conn_reuse": ["Bind", "Connect", "DeliverSyn", "DeliverRst", "Accept", "Poll", "Cancel", "DropListener"],
     "mc_conn_data": ["Bind", "Connect", "DeliverSyn", "Accept", "Poll", "Write", "Read", "DropStream", "DeliverSeg"],
     "mc_ports": ["BindUdp", "BindTcp", "Connect", "AcceptIn", "Drop", "DropHalf", "Crash"],
     "mc_ports_r4": ["BindUdp", "BindTcp", "Connect", "AcceptIn", "Drop", "DropHalf", "Crash"],
